@@ -15,7 +15,9 @@ unknown member of numpy.random / random / datetime raises `Unclassifiable`.
                 Membership | Add | Size | Iterate | Escape | OtherUse;   dicts: every dict construction with its key kind.
  (c) seed_body  the statements of utils.manual_seed.
  (d) hash_defs  every __hash__ / __eq__ definition (or @dataclass) in a class of the package.
- (e) sorts      every sorted( / .sort( call.
+ (e) sorts      every sorted( / .sort( call, with whether a key is given and whether the sorted elements are syntactically
+                numbers (`numeric_expr` below: int arithmetic / guarded names), e.g. sorted(ax + a.ndim if ax < 0 else ax for ax in axes);
+     order_defs every __lt__/__le__/__gt__/__ge__/__cmp__ definition or @total_ordering in a class of the package.
  (f) uninits    every np.empty / np.empty_like / np.ndarray( allocation (uninitialised memory).
  (g) visual_imports   every import of synapgrad.visual outside synapgrad/visual/.
 
@@ -58,6 +60,7 @@ SET_MUTATORS = {'add', 'update', 'discard', 'remove', 'clear', 'difference_updat
                 'symmetric_difference_update'}
 SET_DERIVERS = {'copy', 'union', 'intersection', 'difference', 'symmetric_difference'}
 LABEL_FUNCS = {'str', 'repr', 'format', 'hex', 'print'}
+ORDER_METHODS = {'__lt__', '__le__', '__gt__', '__ge__', '__cmp__'}
 UNINIT = {'numpy.empty', 'numpy.empty_like', 'numpy.ndarray'}
 DICT_CTORS = {'builtin.dict': 'DictCall', 'collections.OrderedDict': 'OrderedDictCall', 'collections.defaultdict': 'DefaultDictCall',
               'collections.Counter': 'CounterCall'}
@@ -108,7 +111,7 @@ class FileCensus:
             self.tree = ast.parse(src, filename=rel)
         except SyntaxError as ex:
             raise Unclassifiable("%s: syntax error: %s" % (rel, ex))
-        self.rows = {k: [] for k in ("draws", "set_news", "set_uses", "dicts", "hash_defs", "sorts", "uninits", "visual_imports")}
+        self.rows = {k: [] for k in ("draws", "set_news", "set_uses", "dicts", "hash_defs", "order_defs", "sorts", "uninits", "visual_imports")}
         self.mod = Scope('module', '<module>', None, self.tree)
         self.tree._scope = self.mod
         self.fn_returns = {}      # module-level function name -> None | 'single' | [bool,...]
@@ -591,6 +594,83 @@ class FileCensus:
             return "Iterate"
         return "Escape"
 
+    # ---- which elements does a keyless sorted(...) order? ------------------------------------------------------------
+    # Judgement  numeric_expr(e, G):  "if every operand of e that is not a package object is a builtin Python value or a NumPy
+    # scalar/array, then evaluating e either raises or yields a number (int / float / bool / NumPy scalar; or a NumPy array, which
+    # compares by value)".  Justification, rule by rule (Python 3 has NO default ordering and no mixed-type arithmetic on builtins):
+    #   known number : int/float/bool literal; len(..), int(..), float(..) (always return a number); x.ndim, x.shape[i] (ints in the
+    #                  NumPy / Tensor API); +,-,*,//,/,%,** and unary -,+ of known numbers.
+    #   K + x, x + K, -, //, /, ** with ONE numeric side: builtin non-numbers (str, list, tuple, None, dict, set) raise TypeError
+    #                  against a number, so if it returns, the other side was a number too.   `*` needs BOTH sides numeric
+    #                  (sequence * int is a sequence), `%` needs the LEFT side numeric (str % x is formatting).
+    #   guard        : in `b if t else c`, a bare name compared by < <= > >= with a numeric expression in the (always evaluated,
+    #                  first) comparison of t is numeric in b and c: order comparison of a builtin non-number with a number raises.
+    # Package objects (Tensor, Parameter, Module) overload + and * but define no ordering (order_defs = [] is part of the theorem),
+    # so a keyless sort over them raises TypeError instead of ordering them.
+    def known_number(self, e):
+        if isinstance(e, ast.Constant):
+            return isinstance(e.value, (int, float)) and not isinstance(e.value, complex)
+        if isinstance(e, ast.Call) and not e.keywords:
+            f = self.origin(e.func)
+            return f in ("builtin.len", "builtin.int", "builtin.float") and not any(isinstance(a, ast.Starred) for a in e.args)
+        if isinstance(e, ast.Attribute) and e.attr == "ndim":
+            return True
+        if isinstance(e, ast.Subscript) and isinstance(e.value, ast.Attribute) and e.value.attr == "shape" and not isinstance(e.slice, (ast.Slice, ast.Tuple)):
+            return True
+        if isinstance(e, ast.UnaryOp) and isinstance(e.op, (ast.USub, ast.UAdd)):
+            return self.known_number(e.operand)
+        if isinstance(e, ast.BinOp) and isinstance(e.op, (ast.Add, ast.Sub, ast.Mult, ast.FloorDiv, ast.Div, ast.Mod, ast.Pow)):
+            return self.known_number(e.left) and self.known_number(e.right)
+        return False
+
+    def numeric_expr(self, e, G=frozenset()):
+        if self.known_number(e):
+            return True
+        if isinstance(e, ast.Name):
+            return e.id in G
+        if isinstance(e, ast.UnaryOp) and isinstance(e.op, (ast.USub, ast.UAdd)):
+            return self.numeric_expr(e.operand, G)
+        if isinstance(e, ast.BinOp):
+            l, r = self.numeric_expr(e.left, G), self.numeric_expr(e.right, G)
+            if isinstance(e.op, (ast.Add, ast.Sub, ast.FloorDiv, ast.Div, ast.Pow)):
+                return l or r
+            if isinstance(e.op, ast.Mult):
+                return l and r
+            if isinstance(e.op, ast.Mod):
+                return l
+            return False
+        if isinstance(e, ast.IfExp):
+            G2 = frozenset(G | self._guarded_names(e.test, G))
+            return self.numeric_expr(e.body, G2) and self.numeric_expr(e.orelse, G2)
+        return False
+
+    def _guarded_names(self, t, G):
+        """names forced to be numbers by the part of the test that is always evaluated"""
+        if isinstance(t, ast.BoolOp):
+            return self._guarded_names(t.values[0], G)
+        if isinstance(t, ast.UnaryOp) and isinstance(t.op, ast.Not):
+            return self._guarded_names(t.operand, G)
+        if isinstance(t, ast.Compare) and len(t.ops) == 1 and isinstance(t.ops[0], (ast.Lt, ast.LtE, ast.Gt, ast.GtE)):
+            a, b = t.left, t.comparators[0]
+            if isinstance(a, ast.Name) and self.numeric_expr(b, G):
+                return {a.id}
+            if isinstance(b, ast.Name) and self.numeric_expr(a, G):
+                return {b.id}
+        return set()
+
+    def sorted_elems(self, arg):
+        """ElemsNumeric iff the single positional argument of sorted( ) is syntactically a collection of numbers"""
+        if any(isinstance(n, ast.NamedExpr) for n in ast.walk(arg)):
+            return "ElemsUnknown"                 # a walrus could rebind a guarded name
+        if isinstance(arg, (ast.GeneratorExp, ast.ListComp, ast.SetComp)):
+            return "ElemsNumeric" if self.numeric_expr(arg.elt) else "ElemsUnknown"
+        if isinstance(arg, (ast.List, ast.Tuple)) and arg.elts:
+            ok = all(not isinstance(x, ast.Starred) and self.numeric_expr(x) for x in arg.elts)
+            return "ElemsNumeric" if ok else "ElemsUnknown"
+        if isinstance(arg, ast.Call) and self.origin(arg.func) == "builtin.range":
+            return "ElemsNumeric"
+        return "ElemsUnknown"
+
     # ---- pass 3: rows ------------------------------------------------------------------------------
     def run(self):
         self._analyse_sets()
@@ -763,9 +843,10 @@ class FileCensus:
             # sorted( / .sort(
             if f == "builtin.sorted" or (isinstance(node.func, ast.Attribute) and node.func.attr == "sort"
                                          and not (f or "").startswith("numpy.")):
-                has_key = any(k.arg == "key" for k in node.keywords)
+                has_key = any(k.arg == "key" and not (isinstance(k.value, ast.Constant) and k.value.value is None) for k in node.keywords)
                 what = U(node.args[0]) if (f == "builtin.sorted" and node.args) else U(node.func.value) if isinstance(node.func, ast.Attribute) else ""
-                r = self.row_base(node); r.update({"callee": U(node.func), "has_key": has_key, "what": what})
+                elems = self.sorted_elems(node.args[0]) if (f == "builtin.sorted" and len(node.args) == 1) else "ElemsUnknown"
+                r = self.row_base(node); r.update({"callee": U(node.func), "has_key": has_key, "elems": elems, "what": what})
                 self.rows["sorts"].append(r)
         # __hash__ / __eq__ definitions
         if isinstance(node, ast.ClassDef):
@@ -776,10 +857,21 @@ class FileCensus:
                     for t in st.targets:
                         if isinstance(t, ast.Name) and t.id in ("__hash__", "__eq__"):
                             self.rows["hash_defs"].append({"file": self.rel, "line": st.lineno, "func": node.name, "method": t.id})
+            for st in node.body:
+                if isinstance(st, (ast.FunctionDef, ast.AsyncFunctionDef)) and st.name in ORDER_METHODS:
+                    self.rows["order_defs"].append({"file": self.rel, "line": st.lineno, "func": node.name, "method": st.name})
+                if isinstance(st, ast.Assign):
+                    for t in st.targets:
+                        if isinstance(t, ast.Name) and t.id in ORDER_METHODS:
+                            self.rows["order_defs"].append({"file": self.rel, "line": st.lineno, "func": node.name, "method": t.id})
             for d in node.decorator_list:
                 f = self.origin(d.func if isinstance(d, ast.Call) else d)
                 if f is not None and f.endswith("dataclass"):
                     self.rows["hash_defs"].append({"file": self.rel, "line": node.lineno, "func": node.name, "method": "@dataclass"})
+                    if isinstance(d, ast.Call) and any(k.arg == "order" for k in d.keywords):
+                        self.rows["order_defs"].append({"file": self.rel, "line": node.lineno, "func": node.name, "method": "@dataclass(order=)"})
+                if f is not None and f.endswith("total_ordering"):
+                    self.rows["order_defs"].append({"file": self.rel, "line": node.lineno, "func": node.name, "method": "@total_ordering"})
         # imports of the visualisation module outside of it
         if isinstance(node, (ast.Import, ast.ImportFrom)) and not self.rel.startswith("visual/"):
             names = []
@@ -862,7 +954,7 @@ def package_files():
 
 def extract_all():
     root, files = package_files()
-    census = {k: [] for k in ("draws", "set_news", "set_uses", "dicts", "hash_defs", "sorts", "uninits", "visual_imports")}
+    census = {k: [] for k in ("draws", "set_news", "set_uses", "dicts", "hash_defs", "order_defs", "sorts", "uninits", "visual_imports")}
     census["files"] = files
     census["seed_body"] = None
     census["seed_exported"] = False
@@ -882,7 +974,7 @@ def extract_all():
                     census["seed_exported"] = True
     if census["seed_body"] is None:
         raise Unclassifiable("synapgrad/utils.py not found")
-    for k in ("draws", "set_news", "set_uses", "dicts", "hash_defs", "sorts", "uninits", "visual_imports"):
+    for k in ("draws", "set_news", "set_uses", "dicts", "hash_defs", "order_defs", "sorts", "uninits", "visual_imports"):
         for r in census[k]:
             if not (0 < r["line"] < 5000):
                 raise Unclassifiable("%s:%d line number out of the supported range" % (r["file"], r["line"]))
@@ -922,7 +1014,9 @@ def emit(c):
     out.append("Definition hash_defs : list hash_def := %s.\n" % clist(
         ["mkHashDef %s %d %s %s" % (cs(r["file"]), r["line"], cs(r["func"]), cs(r["method"])) for r in c["hash_defs"]]))
     out.append("Definition sorts : list sort_call := %s.\n" % clist(
-        ["mkSort %s %d %s %s %s %s" % (cs(r["file"]), r["line"], cs(r["func"]), cs(r["callee"]), cbool(r["has_key"]), cs(r["what"])) for r in c["sorts"]]))
+        ["mkSort %s %d %s %s %s %s %s" % (cs(r["file"]), r["line"], cs(r["func"]), cs(r["callee"]), cbool(r["has_key"]), r["elems"], cs(r["what"])) for r in c["sorts"]]))
+    out.append("Definition order_defs : list hash_def := %s.\n" % clist(
+        ["mkHashDef %s %d %s %s" % (cs(r["file"]), r["line"], cs(r["func"]), cs(r["method"])) for r in c["order_defs"]]))
     out.append("Definition uninits : list site := %s.\n" % clist(
         ["mkSite %s %d %s %s" % (cs(r["file"]), r["line"], cs(r["func"]), cs(r["callee"])) for r in c["uninits"]]))
     out.append("Definition visual_imports : list site := %s.\n" % clist(
@@ -941,7 +1035,7 @@ def generate():
     except Exception as ex:
         # never leave a stale census behind: an empty one (no exported manual_seed, no rows) makes the obligations of
         # Props/C19.v fail (manual_seed_seeds_both, the non-vacuity examples) until the source can be classified again
-        empty = {k: [] for k in ("files", "draws", "set_news", "set_uses", "dicts", "hash_defs", "sorts", "uninits", "visual_imports", "seed_body")}
+        empty = {k: [] for k in ("files", "draws", "set_news", "set_uses", "dicts", "hash_defs", "order_defs", "sorts", "uninits", "visual_imports", "seed_body")}
         empty["seed_exported"] = False
         common.write_if_changed(gen, "(* TRANSLATOR FAILED (fail-closed): %s *)\n" % str(ex).replace("*)", "* )").replace("(*", "( *") + emit(empty))
         try:
